@@ -37,3 +37,17 @@ mod __verif_kani {
         assert!(t.ut_offset == 0 && !t.is_dst && t.time_zone_designation.is_none());
     }
 }
+
+#[cfg(kani)]
+impl<'a> TimeZoneRef<'a> {
+    /// (verification only) the unchecked constructor, for harnesses that establish well-formedness by assumption
+    #[allow(dead_code)]
+    pub(crate) const fn new_unchecked_for_verif(
+        transitions: &'a [Transition],
+        local_time_types: &'a [LocalTimeType],
+        leap_seconds: &'a [LeapSecond],
+        extra_rule: &'a Option<TransitionRule>,
+    ) -> Self {
+        Self::new_unchecked(transitions, local_time_types, leap_seconds, extra_rule)
+    }
+}
